@@ -531,7 +531,8 @@ def start_continue(u: U):
 # (D)
 
 
-@unit("C05", "data_received", functions=[f"{MOD}:RequestHandler.data_received", f"{MOD}:RequestHandler._pause_msg_queue_reading"])
+@unit("C05", "data_received", functions=[f"{MOD}:RequestHandler.data_received", f"{MOD}:RequestHandler._pause_msg_queue_reading"],
+      also=("C20",))
 def data_received(u: U):
     """data_received: parse errors become one queued 400 message; waiter woken once; queue capped by pausing"""
     M = live()
@@ -588,9 +589,21 @@ def data_received(u: U):
     u.check("C05.data.total", out.ok, f"no exception reaches the event loop: {out!r}")
     names = [e[0] for e in log]
     fs = fields(h)
-    if closing:
-        u.check("C05.data.ignored_when_closing", not names and len(msgs) == n0, "a closing connection parses nothing more")
+    if closing and not in_progress:
+        u.check("C05.data.ignored_when_closing", not names and len(msgs) == n0,
+                "a closing connection on which no request is being handled parses nothing more (no new request)")
         return
+    if closing:
+        # From C20: "requests already being handled may complete during the shutdown timeout".  The request being handled
+        # may still be reading its body; _close (Server.pre_shutdown) and _force_close (first statement of
+        # RequestHandler.shutdown, which then WAITS for the handler) must not make the connection deaf to it.  That no
+        # NEW request is started on such a connection is the obligation of start() (C20.shutdown.no_new_request_...).
+        # (The first version of this contract demanded "a closing connection parses nothing" - written from the code.)
+        u.check("C20.shutdown.body_of_the_request_in_progress_is_still_read", "parse" in names,
+                "while a handler runs on a connection marked closing, arriving bytes still reach the parser - they may be "
+                "the rest of the body that handler is waiting for",
+                known=[("F20f", True)], witness={"flag": ("_close", "_force_close")[closing - 1]},
+                also_as=("C05.data.closing_connection_still_feeds_the_request_in_progress",))
     if fails:
         new = list(msgs)[n0:]
         u.check("C05.data.parse_error_is_one_400", len(new) == 1 and isinstance(new[0][0], M._ErrInfo)
